@@ -320,6 +320,33 @@ impl Meta {
         }
     }
 
+    /// short names of the help and version switches of nested commands: inside of those commands
+    /// they are flags like any other and can be a part of a cluster
+    pub(crate) fn collect_builtin_shorts(&self, out: &mut Vec<char>) {
+        match self {
+            Meta::And(xs) | Meta::Or(xs) => {
+                for x in xs {
+                    x.collect_builtin_shorts(out);
+                }
+            }
+            Meta::Item(m) => {
+                if let Item::Command { meta, info, .. } = &**m {
+                    out.extend(&info.help_arg.short);
+                    out.extend(&info.version_arg.short);
+                    meta.collect_builtin_shorts(out);
+                }
+            }
+            Meta::CustomUsage(m, _)
+            | Meta::Required(m)
+            | Meta::Optional(m)
+            | Meta::Adjacent(m)
+            | Meta::Subsection(m, _)
+            | Meta::Suffix(m, _)
+            | Meta::Many(m) => m.collect_builtin_shorts(out),
+            Meta::Skip | Meta::Strict(_) => {}
+        }
+    }
+
     /// collect different kinds of short names for disambiguation
     pub(crate) fn collect_shorts(&self, flags: &mut Vec<char>, args: &mut Vec<char>) {
         match self {
